@@ -1,0 +1,11 @@
+//go:build verif
+
+package jobqueuecontroller
+
+import "k8s.io/client-go/util/workqueue"
+
+// VerifSetQueues replaces the workqueues of the Context.
+func (c *Context) VerifSetQueues(perConfig, independent workqueue.RateLimitingInterface) {
+	c.jobConfigQueue = perConfig
+	c.independentQueue = independent
+}
